@@ -1,76 +1,99 @@
-(* C19 — proofs about Validate.v, part 2: covers, MinErrorFlow, cyclic models (tactics and lemmas: ValidateProofs.v) *)
+(* C19 — proofs about Validate.v, part 2: covers, MinErrorFlow, cyclic models, the property at full strength *)
 From Coq Require Import List Bool ZArith QArith Arith Lia.
 Import ListNotations.
 From FP Require Import Validate ValidateProofs.
 Local Close Scope Q_scope.
 Local Open Scope bool_scope.
-Set Default Timeout 60.
-
-Ltac unfold_all ::=
-  unfold validate_stDAG, validate_stDiGraph, validate_NodeExpandedDiGraph, validate_kFlowDecomp, validate_MinFlowDecomp,
-    validate_kMinPathError, validate_kLeastAbsErrors, validate_kErrDAG, validate_kPathCover, validate_MinPathCover,
-    validate_MinErrorFlow, validate_kFlowDecompCycles, validate_kLeastAbsErrorsCycles, validate_kMinPathErrorCycles,
-    validate_kErrCycles, validate_kPathCoverCycles, validate_MinPathCoverCycles, validate_MinFlowDecompCycles,
-    mfd_solve, kfd_core, kfdc_core, front_cover, front, front_node, front_edge, v_stdag, v_stdigraph, v_ssg_common, v_nodeexp,
-    v_maxflow, v_pathmodel, v_walkmodel, v_walkmodel_k, v_fooled, st_of, en_of, VE in *.
+Set Default Timeout 120.
 
 (* ================================================================== kPathCover *)
-Definition is_node (i : input) := match origin i with ONode => true | _ => false end.
-Definition deviates_kPathCover (i : input) := dev_cov i || dev_expand i || dev_k_nonint i || dev_k_le0 i.
+Definition deviates_kPathCover (i : input) := dev_expand i.
 Theorem validate_sound_kPathCover i : validate_kPathCover i = RaiseValueError -> in_domain_kPathCover i = false.
-Proof.
-  intros H. destruct (in_domain_kPathCover i) eqn:D; [exfalso|reflexivity]. sound_script i.
-Qed.
+Proof. intros H. destruct (in_domain_kPathCover i) eqn:D; [exfalso|reflexivity]. sound_script i. Qed.
 Theorem validate_complete_kPathCover i :
   in_domain_kPathCover i = false -> deviates_kPathCover i = false -> validate_kPathCover i = RaiseValueError.
-Proof.
-  intros D V. unfold deviates_kPathCover in V. split_dev V. norm_hyps.
-  assert (K : k_pos_int i = true) by (apply k_pos_from; unfold dev_k_nonint, dev_k_le0 in *; norm_hyps; assumption).
-  complete_script i.
-Qed.
+Proof. intros D V. unfold deviates_kPathCover in V. complete_script i. Qed.
 Theorem accepts_domain_kPathCover i : in_domain_kPathCover i = true -> validate_kPathCover i = Accept.
 Proof. intros D. accept_script i. Qed.
-(* DESIGN #17: k = 0 is accepted (the model is merely unsolved) *)
-Theorem validate_kPathCover_refuted_k0 :
-  exists i, in_domain_kPathCover i = false /\ validate_kPathCover i = AcceptsButUnsolved.
-Proof. exists (set_k ex_dag (KInt 0)). vm_compute. auto. Qed.
 
 (* ================================================================== MinPathCover *)
-Definition deviates_MinPathCover (i : input) := dev_cov i || dev_expand i || negb (search_enters i).
+Definition deviates_MinPathCover (i : input) := dev_expand i || negb (search_enters i).
 Theorem validate_sound_MinPathCover i : validate_MinPathCover i = RaiseValueError -> in_domain_MinPathCover i = false.
-Proof.
-  intros H. destruct (in_domain_MinPathCover i) eqn:D; [exfalso|reflexivity]. sound_script i.
-Qed.
+Proof. intros H. destruct (in_domain_MinPathCover i) eqn:D; [exfalso|reflexivity]. sound_script i. Qed.
 Theorem validate_complete_MinPathCover i :
   in_domain_MinPathCover i = false -> deviates_MinPathCover i = false -> validate_MinPathCover i = RaiseValueError.
-Proof.
-  intros D V. unfold deviates_MinPathCover in V. split_dev V. norm_hyps. complete_script i.
-Qed.
+Proof. intros D V. unfold deviates_MinPathCover in V. split_dev V. norm_hyps. complete_script i. Qed.
 Theorem accepts_domain_MinPathCover i :
   in_domain_MinPathCover i = true -> search_enters i = true -> validate_MinPathCover i = Accept.
 Proof. intros D S. accept_script i. Qed.
 
-(* ================================================================== MinErrorFlow *)
-Definition deviates_MinErrorFlow (i : input) :=
-  negb (acyclic i) && negb (is_node i) && negb (all_str i).
+(* ================================================================== MinErrorFlow: fail-closed without precondition *)
 Theorem validate_sound_MinErrorFlow i : validate_MinErrorFlow i = RaiseValueError -> in_domain_MinErrorFlow i = false.
 Proof.
   intros H. destruct (in_domain_MinErrorFlow i) eqn:D; [exfalso|reflexivity].
   unfold_dom; unfold_all; destruct (origin i) eqn:O; bsimp; try discriminate;
-  split_dom D; use_size; norm_hyps; prep_lists; rw_in H; bsimp; fin H.
+  split_dom D; use_size; norm_hyps; prep_lists; rw_in H; bsimp; fin H; crunch.
 Qed.
-Theorem validate_complete_MinErrorFlow i :
-  in_domain_MinErrorFlow i = false -> deviates_MinErrorFlow i = false -> validate_MinErrorFlow i = RaiseValueError.
+Theorem validate_complete_MinErrorFlow i : in_domain_MinErrorFlow i = false -> validate_MinErrorFlow i = RaiseValueError.
 Proof.
-  intros D V. unfold deviates_MinErrorFlow, is_node in V.
-  unfold_dom; unfold_all; destruct (origin i) eqn:O; bsimp; try reflexivity; prep_lists; fing.
+  intros D. unfold_dom; unfold_all; destruct (origin i) eqn:O; bsimp; try reflexivity; prep_lists; fing; crunch.
 Qed.
 Theorem accepts_domain_MinErrorFlow i : in_domain_MinErrorFlow i = true -> validate_MinErrorFlow i = Accept.
 Proof.
   intros D. unfold_dom; unfold_all; destruct (origin i) eqn:O; bsimp; try discriminate;
-  split_dom D; use_size; norm_hyps; prep_lists; rw_goal; bsimp; fing.
+  split_dom D; use_size; norm_hyps; prep_lists; rw_goal; bsimp; fing; crunch.
 Qed.
-(* a cyclic graph in edge mode is never wrapped in an st-graph: non-string nodes are accepted *)
-Theorem validate_MinErrorFlow_refuted_nonstring_cyclic :
-  exists i, in_domain_MinErrorFlow i = false /\ validate_MinErrorFlow i = Accept.
-Proof. exists (set_flags ex_graph false true true [true; false]). vm_compute. auto. Qed.
+
+(* ================================================================== kFlowDecompCycles *)
+Definition deviates_kFlowDecompCycles (i : input) := all_ignored i || dev_expand i || dev_noncons i.
+Theorem validate_sound_kFlowDecompCycles i :
+  validate_kFlowDecompCycles i = RaiseValueError -> in_domain_kFlowDecompCycles i = false.
+Proof. intros H. destruct (in_domain_kFlowDecompCycles i) eqn:D; [exfalso|reflexivity]. sound_script i. Qed.
+Theorem validate_complete_kFlowDecompCycles i :
+  in_domain_kFlowDecompCycles i = false -> deviates_kFlowDecompCycles i = false ->
+  validate_kFlowDecompCycles i = RaiseValueError.
+Proof. intros D V. unfold deviates_kFlowDecompCycles in V. split_dev V. complete_script i. Qed.
+Theorem accepts_domain_kFlowDecompCycles i :
+  in_domain_kFlowDecompCycles i = true -> has_live i = true -> validate_kFlowDecompCycles i = Accept.
+Proof. intros D L. rewrite has_live_all_ignored in L. apply negb_true_iff in L. accept_script i. Qed.
+(* OPEN (DESIGN #21): a non-conserving flow is not rejected, the model is infeasible (unsolved) *)
+Theorem validate_kFlowDecompCycles_refuted_nonconserving :
+  exists i, in_domain_kFlowDecompCycles i = false /\ validate_kFlowDecompCycles i = AcceptsButUnsolved.
+Proof. exists (set_flags ex_graph false false true [true; true]). vm_compute. auto. Qed.
+
+(* ================================================================== kLeastAbsErrorsCycles / kMinPathErrorCycles *)
+Definition deviates_kErrCycles (i : input) := all_ignored i || dev_expand i.
+Theorem validate_sound_kErrCycles i : validate_kErrCycles i = RaiseValueError -> in_domain_kErrCycles i = false.
+Proof. intros H. destruct (in_domain_kErrCycles i) eqn:D; [exfalso|reflexivity]. sound_script i. Qed.
+Theorem validate_complete_kErrCycles i :
+  in_domain_kErrCycles i = false -> deviates_kErrCycles i = false -> validate_kErrCycles i = RaiseValueError.
+Proof. intros D V. unfold deviates_kErrCycles in V. split_dev V. complete_script i. Qed.
+Theorem accepts_domain_kErrCycles i :
+  in_domain_kErrCycles i = true -> has_live i = true -> validate_kErrCycles i = Accept.
+Proof. intros D L. rewrite has_live_all_ignored in L. apply negb_true_iff in L. accept_script i. Qed.
+
+(* ================================================================== kPathCoverCycles *)
+Definition deviates_kPathCoverCycles (i : input) := dev_expand i.
+Theorem validate_sound_kPathCoverCycles i :
+  validate_kPathCoverCycles i = RaiseValueError -> in_domain_kPathCoverCycles i = false.
+Proof. intros H. destruct (in_domain_kPathCoverCycles i) eqn:D; [exfalso|reflexivity]. sound_script i. Qed.
+Theorem validate_complete_kPathCoverCycles i :
+  in_domain_kPathCoverCycles i = false -> deviates_kPathCoverCycles i = false ->
+  validate_kPathCoverCycles i = RaiseValueError.
+Proof. intros D V. unfold deviates_kPathCoverCycles in V. complete_script i. Qed.
+Theorem accepts_domain_kPathCoverCycles i :
+  in_domain_kPathCoverCycles i = true -> validate_kPathCoverCycles i = Accept.
+Proof. intros D. accept_script i. Qed.
+
+(* ================================================================== MinPathCoverCycles *)
+Definition deviates_MinPathCoverCycles (i : input) := dev_expand i || negb (search_enters i).
+Theorem validate_sound_MinPathCoverCycles i :
+  validate_MinPathCoverCycles i = RaiseValueError -> in_domain_MinPathCoverCycles i = false.
+Proof. intros H. destruct (in_domain_MinPathCoverCycles i) eqn:D; [exfalso|reflexivity]. sound_script i. Qed.
+Theorem validate_complete_MinPathCoverCycles i :
+  in_domain_MinPathCoverCycles i = false -> deviates_MinPathCoverCycles i = false ->
+  validate_MinPathCoverCycles i = RaiseValueError.
+Proof. intros D V. unfold deviates_MinPathCoverCycles in V. split_dev V. norm_hyps. complete_script i. Qed.
+Theorem accepts_domain_MinPathCoverCycles i :
+  in_domain_MinPathCoverCycles i = true -> search_enters i = true -> validate_MinPathCoverCycles i = Accept.
+Proof. intros D S. accept_script i. Qed.
